@@ -9,11 +9,24 @@ pub struct Bytes<const N: usize> {
 }
 
 impl<const N: usize> Bytes<N> {
-    /// Symbolic contents, symbolic length `0..=N`.
+    /// Symbolic contents; length symbolic in `0..=N` when `sym::symbolic_len()`, else the next of the rotation 2,3,0,1.
     pub fn any() -> Self {
         let buf = sym::bytes::<N>();
-        let len = sym::upto(N);
+        let len = if sym::symbolic_len() {
+            sym::upto(N)
+        } else {
+            let l = len3_next();
+            if l > N {
+                N
+            } else {
+                l
+            }
+        };
         Self { buf, len }
+    }
+    /// Symbolic contents, symbolic length `0..=N`.
+    pub fn any_symlen() -> Self {
+        Self { buf: sym::bytes::<N>(), len: sym::upto(N) }
     }
     /// Symbolic contents over the byte domain `0..=max`, symbolic length.
     pub fn any_small(max: u8) -> Self {
@@ -100,4 +113,86 @@ pub fn same_bytes(a: &[u8], b: &[u8]) -> bool {
     let i = sym::usize();
     sym::assume(i < a.len());
     a[i] == b[i]
+}
+
+/// UTF-8 shape rotation: byte widths of the scalar values of the k-th generated string.
+pub const STR_SHAPES: [&[u8]; 6] = [&[2, 3], &[4], &[], &[1, 2], &[3], &[1]];
+
+/// Push one symbolic scalar value of UTF-8 width `w` (valid by construction: lead bytes C2..DF / E1..EC / F1..F3 take
+/// any continuation bytes; the special leads E0, ED, F0, F4 are outside the bound).
+fn push_scalar(s: &mut String, w: u8) {
+    let v = unsafe { s.as_mut_vec() };
+    match w {
+        1 => {
+            let b = sym::u8();
+            sym::assume(b < 0x80);
+            v.push(b);
+        }
+        2 => {
+            let b = sym::u8();
+            sym::assume(0xC2 <= b && b <= 0xDF);
+            v.push(b);
+            v.push(cont());
+        }
+        3 => {
+            let b = sym::u8();
+            sym::assume(0xE1 <= b && b <= 0xEC);
+            v.push(b);
+            v.push(cont());
+            v.push(cont());
+        }
+        _ => {
+            let b = sym::u8();
+            sym::assume(0xF1 <= b && b <= 0xF3);
+            v.push(b);
+            v.push(cont());
+            v.push(cont());
+            v.push(cont());
+        }
+    }
+}
+
+fn cont() -> u8 {
+    let b = sym::u8();
+    sym::assume(b & 0xC0 == 0x80);
+    b
+}
+
+/// A string with the given concrete scalar widths and symbolic contents.
+pub fn string_shaped(widths: &[u8]) -> String {
+    let mut s = String::with_capacity(8);
+    for &w in widths {
+        push_scalar(&mut s, w);
+    }
+    #[cfg(not(kani))]
+    assert!(core::str::from_utf8(s.as_bytes()).is_ok(), "REPLAY-ASSUME-VIOLATED: generator produced invalid UTF-8");
+    s
+}
+
+/// The next string of the shape rotation.
+pub fn string_next() -> String {
+    string_shaped(STR_SHAPES[sym::next_shape() % STR_SHAPES.len()])
+}
+
+/// A short string: next of the rotation `[1-byte], [2-byte], [], [3-byte]` (for rows of strings).
+pub fn string_short() -> String {
+    const S: [&[u8]; 4] = [&[1], &[2], &[], &[3]];
+    string_shaped(S[sym::next_shape() % 4])
+}
+
+/// Next concrete length of the rotation 2, 1, 0, 2, ...
+pub fn len_next(max: usize) -> usize {
+    const L: [usize; 4] = [2, 1, 0, 2];
+    let l = L[sym::next_shape() % 4];
+    if l > max {
+        max
+    } else {
+        l
+    }
+}
+
+/// Next concrete length of the rotation 2, 3, 0, 1, ... (row widths: a wider row after a narrower one, an empty one, ...).
+pub fn len3_next() -> usize {
+    const L: [usize; 4] = [2, 3, 0, 1];
+    L[sym::next_shape() % 4]
 }
